@@ -1,0 +1,12 @@
+//! Verification hooks. Compiled only with `--cfg reclass_rs_verif`; re-exports crate-private
+//! items so that an external harness can observe them. No behaviour is changed.
+pub use crate::config::{CompatFlag, Config};
+pub use crate::inventory::Inventory;
+pub use crate::list::{List, RemovableList, UniqueList};
+pub use crate::node::Node;
+pub use crate::refs::{ResolveState, Token};
+
+/// Parses `s` with the reference parser (`Token::parse`).
+pub fn token_parse(s: &str) -> anyhow::Result<Option<Token>> {
+    Token::parse(s)
+}
